@@ -200,7 +200,7 @@ CHECKS["C08"] = dict(
          "unchecked to a function that asserts it valid (known findings K2: two sites); (R8) the UXF path is recorded only after a successful bind and unlinked "
          "by the owner's close; (R9) every object a function obtains from a creator in a 48-entry creator/releaser table is released, stored, returned or handed "
          "over on every path; (R10) no data-path op is reachable on a socket between init and connect/server/accept (known finding K6). (R11) teardown loops over a counted collection run until it is empty (no index advancing against a count the body decrements). Not decided: equality of "
-         "the heap and descriptor table before/after (R3/R9 are coverage and per-function ownership, not a leak proof); behaviour of a forked child at run time. (R12) the always-readable descriptor is shared by at most 100 epoll instances (kernel path limit for nested epoll; beyond it EPOLL_CTL_ADD fails and K2's assertion aborts). (R8 also) the UXF path is on record on every failure exit after bind; (R13) EPOLL_CTL_DEL tolerates exactly EBADF/ENOENT/EPERM. (R14) a function that frees a record it was building has released every field that already owns something on that path (field-ownership typestate, creators from the ownership table, ares_init_options as a field out-creator); (R9 also) out-parameter creators are derived through helpers that pass their own out-parameters on.",
+         "the heap and descriptor table before/after (R3/R9 are coverage and per-function ownership, not a leak proof); behaviour of a forked child at run time. (R12) the always-readable descriptor is shared by at most 100 epoll instances (kernel path limit for nested epoll; beyond it EPOLL_CTL_ADD fails and K2's assertion aborts). (R8 also) the UXF path is on record on every failure exit after bind; (R13) EPOLL_CTL_DEL tolerates exactly EBADF/ENOENT/EPERM. (R14) a function that frees a record it was building has released every field that already owns something on that path (field-ownership typestate, creators from the ownership table, ares_init_options as a field out-creator); (R9 also) out-parameter creators are derived through helpers that pass their own out-parameters on. (R15) a function that releases what an out-parameter points to stores into the out-parameter again on every path before it returns.",
     note=TRUSTED + " The kernel drops a descriptor's epoll registrations when it is closed; registration tables (xpoll) keep descriptor numbers without owning them.",
     technique="typestate abstract interpretation with inlining and parameter binding + ownership dataflow + context-sensitive call-graph reachability",
     design="3/C08")
@@ -234,7 +234,7 @@ CHECKS["C18"] = dict(
          "network namespace keep nothing in static storage; (R6) the by-file and by-value setter of each credential write the same slot through a helper that "
          "releases the previous content; (R7) every edge of ctx_store_get_ctx that gives up assigns EPROTO on all its paths to the exit or fails through a "
          "callee all of whose failing exits carry EPROTO (errno facts), else every caller must set it. Not decided: that later connections see replaced files "
-         "(kernel and timing), that established connections are unaffected (OpenSSL object lifetime); thread-safety of the cache is C15's. (R8) the namespace-name lookup keeps no state between calls; (R9) context items and result belong to one socket; (R10) default/per-namespace file templates agree; (R11) failed loads and handshakes leave the OpenSSL error queue empty. (R12) the file loader ends its loop on fread's short count or on read(2) returning 0 only.",
+         "(kernel and timing), that established connections are unaffected (OpenSSL object lifetime); thread-safety of the cache is C15's. (R8) the namespace-name lookup keeps no state between calls; (R9) context items and result belong to one socket; (R10) default/per-namespace file templates agree; (R11) failed loads and handshakes leave the OpenSSL error queue empty. (R12) the file loader ends its loop on fread's short count or on read(2) returning 0 only. (R13) a PEM bundle loader (reader in a loop) succeeds after the reader's NULL only on paths that compared the error's reason with PEM_R_NO_START_LINE or its library with ERR_LIB_PEM.",
     note=TRUSTED,
     technique="path exploration (get/put typestate, ordering typestate) + argument coverage + control dependence / must-pass + errno facts",
     design="3/C18")
@@ -264,7 +264,7 @@ CHECKS["C04"] = dict(
          "the handshaking state hands ssl_wants to the sub-socket; every OpenSSL I/O site passes its result to process_ssl_event; (R7) connect() is issued only "
          "with the descriptor registered for EPOLLOUT, EINPROGRESS and a delayed track arm a timer; (R8) the resolver's entry points end in update_xpoll and a "
          "finished query arms a zero timer; (R9) the blocking forms poll the socket's own descriptor for POLLIN after await(). (R10) the btls connection update helper is folded exactly over its 48 ready-state inputs (awaited condition x direction of the last incomplete OpenSSL call x what it wanted x SSL_has_pending): every row rings the bell or stores and updates the sub-socket's condition, decrypted bytes ring when RECEIVABLE is awaited, an awaited direction OpenSSL was not asked about is watched on the sub-socket; (R11) send/receive/finish of btcp and btls call the state-advancing helper before the first test of the connection state. Not decided: boundedness in "
-         "time; what OpenSSL does with a wake-up (trusted). (R3 also) the value handed to the sub-socket is built from the socket's own condition and only or-ed afterwards; (R12) clock_gettime in the timer's time source uses the clock the timerfd was created on. (R13) the function that starts the connect attempts polls their outcome (or fails the connection) on every path before it returns: attempts that fail at once leave no wake-up source.",
+         "time; what OpenSSL does with a wake-up (trusted). (R3 also) the value handed to the sub-socket is built from the socket's own condition and only or-ed afterwards; (R12) clock_gettime in the timer's time source uses the clock the timerfd was created on. (R13) the function that starts the connect attempts polls their outcome (or fails the connection) on every path before it returns: attempts that fail at once leave no wake-up source. (R14) btcp's connection update in state ready, folded exactly over the awaited conditions 0..3, registers EPOLLIN iff RECEIVABLE and EPOLLOUT iff SENDABLE, both when both are awaited (= C16.R3).",
     note=TRUSTED,
     technique="must-follow / must-pass path rules with inlining + switch-case typestate + control dependence + constant-flag checks",
     design="3/C04")
@@ -275,7 +275,7 @@ CHECKS["C16"] = dict(
          "by that re-evaluation; (R3) the condition-to-event mappings of the leaf transports are decided exactly - ux's conn_event/server_event folded over all "
          "8 condition values, btcp's flags or-ed only under the matching condition bit - and btls in state ready with nothing awaited neither rings its bell nor "
          "asks the sub-socket for anything, and the same helper folded exactly over its 48 ready-state inputs never hands down more interest than is awaited or OpenSSL wants; (R4) every expired edge of timer_mgr_has_expired is followed on all paths by ack/cancel/reschedule of that timer; "
-         "(R5) a successful resolver result and a handed-over connected descriptor are deregistered from the epoll set. (R6) the epoll wrapper skips epoll_ctl only when the stored mask equals the requested one; (R7) the control listener is parked exactly while the session table is full; (R8) descriptors are deregistered before they are closed (one named exception with its reason); (R9) send/receive/finish are followed by the socket's update. (R10) a control client kept after a step (non-negative return) is registered for EPOLLOUT exactly when its response-pending flag was set true on that path.",
+         "(R5) a successful resolver result and a handed-over connected descriptor are deregistered from the epoll set. (R6) the epoll wrapper skips epoll_ctl only when the stored mask equals the requested one; (R7) the control listener is parked exactly while the session table is full; (R8) descriptors are deregistered before they are closed (one named exception with its reason); (R9) send/receive/finish are followed by the socket's update. (R10) a control client kept after a step (non-negative return) is registered for EPOLLOUT exactly when its response-pending flag was set true on that path. (R11) on every path on which the transport took the connect tracker's / resolver's result successfully, the helper is destroyed before the function returns (same-file helpers followed); (R3 also) btcp's ready-state mask folded exactly; (R5) by path exploration.",
     note=TRUSTED,
     technique="who-may-write queries + control dependence / must-follow + exact folding of mapping functions + path exploration",
     design="3/C16")
